@@ -714,6 +714,12 @@ func schedRun(args []string) int {
 					line = fmt.Sprintf("sched step %d", now)
 					ans = fmt.Sprintf("pop=%s cls=%s disp=%s misfire=%s calls=%s push=%s", entryString(e), cls, b01(disp), b01(misf), callsString(sr.calls), pushS)
 					// property-level judgments, independent of the Lean model
+					for _, tc := range sr.calls {
+						if tc.tag != ptag {
+							flagV(fmt.Sprintf("C03 the fire time of job %d was asked of the trigger of job %d: not its own trigger (the entry carries a trigger it was not scheduled with)", ptag, tc.tag))
+							break
+						}
+					}
 					if disp {
 						if len(sr.execs) > 1 || sr.execs[0] != ptag {
 							flagV("C03 a job other than the dequeued one was executed, or it ran more than once")
